@@ -15,7 +15,8 @@
   (c16 h.set h k v) (c16 h.setattr h k v) (c16 h.del h k) (c16 h.delattr h k)       in place; reply: the target afterwards
   (c16 h.get h k) (c16 h.getattr h k) (c16 h.gett h (T k*)) (c16 h.keys h)           reads
   (c16 h.dump)                                                                       reply: `(H d0 d1 …)`, the whole heap
-  `d.add` / `h.add` / `h.addh` are class-aware (`DA.addC`): for class 1 (`Dict`) they are C15's `tree_update`.
+  `d.add` / `h.add` / `h.addh` are class-aware (`DA.addC`): for class 1 (`Dict`) and 4 (a subclass of `Dict`) they are C15's `tree_update`.
+  `d.sub d (T k*)` is the tuple-PATH form (`DA.subPath`); `d.get / d.gett / d.getl` resolve an absent dotted key part by part (`DA.getKeyD`).
   `h.getattr` of a name that is an attribute of the class replies `ok method`; `h.setattr` of a name starting with `_` leaves
   the mapping as it is (a private instance attribute, not tracked by the model).
 
@@ -26,6 +27,7 @@ import PygModel.USet
 import PygModel.DictCall
 import PygModel.DAHeap
 import PygModel.DictAdd
+import PygModel.DADotted
 
 namespace Pyg.USetDriver
 open Pyg
@@ -163,18 +165,32 @@ def handle (s : St) (op : String) (args : List Sexp) : Option (St × String) := 
   | "u.append", [h, x] => let h ← h.toNat?; inplaceU s h (.append h (canonV (← Val.ofSexp x)))
   | "u.extend", [h, xs] => let h ← h.toNat?; inplaceU s h (.extend h (← elems xs))
   | "u.iadd", [h, xs] => let h ← h.toNat?; inplaceU s h (.iadd h (← elems xs))
-  | "u.insert", [h, i, x] => let h ← h.toNat?; inplaceU s h (.insert h (← i.toNat?) (canonV (← Val.ofSexp x)))
-  | "u.setitem", [h, i, x] => let h ← h.toNat?; inplaceU s h (.setI h (← i.toNat?) (canonV (← Val.ofSexp x)))
+  -- python index normalisation: a negative index counts from the end; `insert` clamps, `u[i] = x` raises IndexError out of range
+  | "u.insert", [h, i, x] =>
+      let h ← h.toNat?; let n := (← s.1[h]?).length; let i ← i.toInt?
+      let j : Nat := if i < 0 then (i + n).toNat else i.toNat
+      inplaceU s h (.insert h j (canonV (← Val.ofSexp x)))
+  | "u.setitem", [h, i, x] =>
+      let h ← h.toNat?; let n := (← s.1[h]?).length; let i ← i.toInt?
+      if i < 0 ∧ i + n < 0 then some (s, "err IndexError") else
+      let j : Nat := if i < 0 then (i + n).toNat else i.toNat
+      inplaceU s h (.setI h j (canonV (← Val.ofSexp x)))
+  -- the public attribute names the model takes to be found on the class (`DAHeap.shadowed`), for the comparison with `dir(cls)`
+  | "shadowed", [cls] =>
+      let c ← cls.toNat?
+      pure1 (okList (((DAHeap.dictNames ++ DAHeap.dictattrNames ++ DAHeap.dictNames1).filter (DAHeap.shadowed c)).map fun k => .cell (.str k)))
   | "u.imul", [h, n] => let h ← h.toNat?; inplaceU s h (.imul h (← n.toNat?))
   | "d.sub", [d, k] =>
       let d ← daOf d
       match k with
       | .node (.atom "L" :: _) => pure1 ("ok " ++ daRender (DA.subKeys d (← strsOf k)))
+      | .node (.atom "T" :: _) => pure1 (resStr (DA.subPath d (← strsOf k)) daRender)      -- a tuple is a PATH into nested mappings
       | _ => pure1 ("ok " ++ daRender (DA.subKey d (← strOf k)))
   | "d.and", [d, k] => pure1 ("ok " ++ daRender (DA.andKeys (← daOf d) (← strsOf k)))
-  | "d.getl", [d, k] => pure1 (resStr (DA.getList (← daOf d) (← strsOf k)) daRender)
-  | "d.gett", [d, k] => pure1 (resStr (DA.getTuple (← daOf d) (← strsOf k)) fun vs => (Val.list vs).render)
-  | "d.get", [d, k] => pure1 (resStr (DA.getKey (← daOf d) (← strOf k)) Val.render)
+  -- the stateless reads follow the code's dotted fallback for absent keys (`DA.getKeyD`); on dot-free keys they are `DA.getList/getTuple/getKey`
+  | "d.getl", [d, k] => pure1 (resStr (DA.getListD (← daOf d) (← strsOf k)) daRender)
+  | "d.gett", [d, k] => pure1 (resStr (DA.getTupleD (← daOf d) (← strsOf k)) fun vs => (Val.list vs).render)
+  | "d.get", [d, k] => pure1 (resStr (DA.getKeyD (← daOf d) (← strOf k)) Val.render)
   | "d.add", [d, o] => pure1 (resStr (DA.addC (← daOf d) (← daOf o).items) daRender)
   | "d.relabel", [d, m] =>
       let m ← (← daOf m).items.mapM fun (k, v) => match v with
